@@ -68,6 +68,22 @@ def endToEnd (op : Op) : Except Err (List Call) := do
   let wire ← pack op.attrs
   serverCalls wire
 
+/-! ## by-path requests: the client's emulated working directory -/
+
+/-- `SFTPClient._adjust_cwd(path)` with `self._cwd = cwd` (`none` = no `chdir` yet) -/
+def adjustCwd (cwd : Option Bytes) (path : Bytes) : Bytes :=
+  match cwd with
+  | none => path
+  | some c =>
+    if path.head? = some 47 then path          -- absolute path
+    else if c = [47] then c ++ path
+    else c ++ 47 :: path
+
+/-- what a by-path `SFTPClient.chmod/chown/utime/truncate(path, …)` sends in SETSTAT: the path string, and the calls
+the attribute block leads to on the server -/
+def byPath (cwd : Option Bytes) (path : Bytes) (op : Op) : Bytes × Except Err (List Call) :=
+  (adjustCwd cwd path, endToEnd op)
+
 /-! ## the filesystem the calls act on (abstract OS) -/
 
 structure FileSt where
